@@ -542,3 +542,35 @@ func alignWideAlphabets(r *core.Run, judge func(c alnCase, res alnResult, change
 			return out
 		})
 }
+
+// alignAllBytePairs: every ordered PAIR of adjacent bytes as part of a sequence. A single byte value means
+// nothing to the text machinery of the standard library; two adjacent ones may: a valid 2-byte UTF-8
+// sequence (0xC3 0xBF is U+00FF, the code point whose number is the gap byte), CR LF, a backslash escape, a
+// percent verb. Levenshtein is defined on all 255 letters, so every pair is inside the domain.
+func alignAllBytePairs(r *core.Run, judge func(c alnCase, res alnResult, changed bool) core.Outcome) {
+	core.Clause(r, "all-byte-pairs", core.Opts{Rule: "for every ordered pair (x,y) of byte values 0..254: a = xy against b = xy and b = yxy, and a = AxyA against b = xy, with Levenshtein x {Global, Local}; judged like every other call; non-trivial = always",
+		Bounds: "65 025 byte pairs x 3 sequence pairs x 2 functions"},
+		func(emit func(alnCase) bool) {
+			for x := 0; x < 255; x++ {
+				for y := 0; y < 255; y++ {
+					xy := string([]byte{byte(x), byte(y)})
+					for _, fn := range bothFns {
+						if !emit(alnCase{fn, core.S(xy), core.S(xy), "Levenshtein"}) ||
+							!emit(alnCase{fn, core.S(xy), core.S(xy[1:] + xy), "Levenshtein"}) ||
+							!emit(alnCase{fn, core.S("A" + xy + "A"), core.S(xy), "Levenshtein"}) {
+							return
+						}
+					}
+				}
+			}
+		},
+		func(c alnCase) core.Outcome {
+			res, changed := runAlign(c, matrixByName(c.Matrix))
+			out := judge(c, res, changed)
+			if out.Fail == "" && out.Known == "" {
+				out.Class = c.Fn
+				out.Nontrivial = true
+			}
+			return out
+		})
+}
